@@ -21,7 +21,7 @@ class windows:
     def candidates(hints):
         for name in ("hann", "hamming", "rect", "bartlett", "triangular", "blackman", "cos"):
             for size in (1, 2, 3, 4, 5, 8, 16):
-                alphas = {"blackman": [None, 0.0, 0.16, 0.1536], "cos": [None, 1, 2]}.get(name, [None])
+                alphas = {"blackman": [None, 0, 0.0, 0.16, 0.1536, 0.08], "cos": [None, 0, 0.0, 1, 2, 3]}.get(name, [None])
                 for a in alphas:
                     for twice in (False, True):
                         yield {"name": name, "size": size, "alpha": a, "mutate_first": twice}
@@ -36,6 +36,13 @@ class windows:
         if twice:   # a caller may modify what it got: later calls must not be affected
             w0 = window[name](*args); w0.append(123.0)
             s0 = wsymm[name](*((size + 1,) + args[1:])); s0[:] = [v * 7 for v in s0]
+        if alpha is not None:
+            # the same strategy and size called before with the default alpha, then alpha by keyword: no state between calls
+            window[name](size)
+            wk = window[name](size, alpha=alpha)
+            expk = [F(n, size, a) for n in range(size)]
+            if len(wk) != size or any(abs(x - y) > 1e-12 for x, y in zip(wk, expk)):
+                return "window.%s(%d, alpha=%r) after a default call = %r; documented closed form gives %r" % (name, size, alpha, wk, expk)
         w = window[name](*args)
         exp = [F(n, size, a) for n in range(size)]
         if len(w) != size or any(abs(x - y) > 1e-12 for x, y in zip(w, exp)):
